@@ -30,8 +30,12 @@ void __builtin___clear_cache (void *a, void *b) { (void) a; (void) b; } /* no bo
 #ifndef H_NOPS
 #define H_NOPS 3
 #endif
-#define H_PSZ 64
+#ifndef H_PSZ
+#define H_PSZ 64 /* -DH_PSZ=32: a 48-byte region straddles a page boundary already in a one-holder history */
+#endif
+#ifndef H_PAGES
 #define H_PAGES 6
+#endif
 /* Code memory is an INTEGER address range (symbolic object addresses make the page arithmetic
    `addr / page_size * page_size` and the 16-byte alignment intractable); the bytes live in a shadow array that
    only the observed memcpy writes.  The library itself touches code memory through memcpy only (_MIR_set_code). */
